@@ -157,15 +157,17 @@ func (ctx *_OpContextType) encodeRaw(as abi.As, arg *abi.AsArgument) (x uint32, 
 		rd := ctx.regI(arg.Rd)
 		rj := ctx.regI(arg.Rs1)
 		rk := ctx.regI(arg.Rs2)
-		sa2 := arg.Imm & 0xF
-		x |= (rk << 14) | (uint32(sa2) << 10) | (rj << 5) | rd
+		assert(arg.Imm >= 0 && arg.Imm < (1<<2))
+		sa2 := arg.Imm & 0x3
+		x |= (uint32(sa2) << 15) | (rk << 10) | (rj << 5) | rd
 		return
 	case OpFormatType_3R_sa3:
 		rd := ctx.regI(arg.Rd)
 		rj := ctx.regI(arg.Rs1)
 		rk := ctx.regI(arg.Rs2)
-		sa2 := arg.Imm & 0x1F
-		x |= (rk << 14) | (uint32(sa2) << 10) | (rj << 5) | rd
+		assert(arg.Imm >= 0 && arg.Imm < (1<<3))
+		sa3 := arg.Imm & 0x7
+		x |= (uint32(sa3) << 15) | (rk << 10) | (rj << 5) | rd
 		return
 	case OpFormatType_code:
 		code := arg.Imm & 0x7FFF
@@ -216,7 +218,7 @@ func (ctx *_OpContextType) encodeRaw(as abi.As, arg *abi.AsArgument) (x uint32, 
 	case OpFormatType_cd_2F:
 		cd := ctx.regFCC(arg.Rd)
 		fj := ctx.regF(arg.Rs1)
-		fk := ctx.regF(arg.Rs1)
+		fk := ctx.regF(arg.Rs2)
 		x |= (fk << 10) | (fj << 5) | cd
 		return
 	case OpFormatType_1R_cj:
@@ -243,7 +245,8 @@ func (ctx *_OpContextType) encodeRaw(as abi.As, arg *abi.AsArgument) (x uint32, 
 	case OpFormatType_2R_level:
 		rd := ctx.regI(arg.Rd)
 		rj := ctx.regI(arg.Rs1)
-		level := uint32(arg.Imm) & 0xFFFF
+		assert(arg.Imm >= 0 && arg.Imm < (1<<8))
+		level := uint32(arg.Imm) & 0xFF
 		x |= (level << 10) | (rj << 5) | rd
 		return
 	case OpFormatType_level:
@@ -252,7 +255,8 @@ func (ctx *_OpContextType) encodeRaw(as abi.As, arg *abi.AsArgument) (x uint32, 
 		return
 	case OpFormatType_0_1R_seq:
 		rj := ctx.regI(arg.Rs1)
-		seq := uint32(arg.Imm) & 0xFFFF
+		assert(arg.Imm >= 0 && arg.Imm < (1<<8))
+		seq := uint32(arg.Imm) & 0xFF
 		x |= (seq << 10) | (rj << 5)
 		return
 	case OpFormatType_op_2R:
